@@ -7,6 +7,7 @@
 mod probe;
 mod runner;
 mod suites;
+mod sweep;
 mod util;
 
 use std::io::{BufRead, Write};
@@ -45,6 +46,7 @@ fn main() {
 				writeln!(w, "{}", l).unwrap();
 			}
 		}
+		"sweep" => sweep::run(suite),
 		_ => {
 			eprintln!("unknown mode {}", mode);
 			std::process::exit(2);
